@@ -119,6 +119,10 @@ ExtDiff(ea, eb) ==
   IF D = {} THEN "extension-count:" \o ToString(Len(ea)) \o "/" \o ToString(Len(eb))
   ELSE LET i == CHOOSE i \in D : \A j \in D : i <= j IN
        IF ea[i].type # eb[i].type THEN "extension-order:" \o ToString(ea[i].type) \o "/" \o ToString(eb[i].type)
+       \* RFC 8701 allows an empty GREASE extension; named apart: the second GREASE extension of a spec with an empty
+       \* body is BoringSSL's one-byte 00 by construction (ApplyPreset), so an empty captured one cannot be reproduced
+       ELSE IF ea[i].type = GREASE /\ ea[i].body = <<>> /\ \E j \in 1..(i-1) : ea[j].type = GREASE
+            THEN "extension-body:" \o ToString(ea[i].type) \o ":empty-second-grease-body"
        ELSE "extension-body:" \o ToString(ea[i].type)
 ShapeDiff(nA, nB, hB, flags) == IF flags.realpsk /\ ~HasPsk(hB) THEN ExtDiff(DropPsk(nA).exts, nB.exts) ELSE ExtDiff(nA.exts, nB.exts)
 
